@@ -703,6 +703,18 @@ class SimNinja:
                 env = dict(env)
                 env["PATH"] = os.path.join(os.path.dirname(os.path.abspath(__file__)), "shim_fail") + ":" + env["PATH"]
                 env["NSIM_INNER_FAULT"] = json.dumps({"code": f.get("code", 2), "mode": f.get("mode", "no_output"), "signal": f.get("signal"), "marker": marker})
+            backup = None
+            if f is not None and f["kind"] == "fail_output_lost":
+                # the command does everything EXCEPT deliver its declared outputs (it dies in its last stage): side effects
+                # of earlier stages stay, the outputs are what they were before, the status is a failure
+                backup = {}
+                for o in e.outs:
+                    po = os.path.join(bdir, o)
+                    if os.path.isfile(po):
+                        with open(po, "rb") as fh:
+                            backup[po] = (fh.read(), os.stat(po).st_mtime_ns)
+                    elif not os.path.exists(po):
+                        backup[po] = None
             watcher = None
             try:
                 watcher = inotify.Watcher(real_bdir)
@@ -721,6 +733,19 @@ class SimNinja:
             if watcher is not None:
                 touched = watcher.drain()
                 watcher.close()
+            if backup is not None:
+                for po, old_ in backup.items():
+                    if old_ is None:
+                        try:
+                            os.unlink(po)
+                        except OSError:
+                            pass
+                    else:
+                        with open(po, "wb") as fh:
+                            fh.write(old_[0])
+                        os.utime(po, ns=(old_[1], old_[1]))
+                st = ("exit", int(f.get("code", 1)))
+                rec["fired"] = True
             reads, writes = w.settle()
             # scratch files that came and went while the step ran are writes of this step too
             transient = sorted(p for p in touched if os.path.basename(p) != LOG_NAME and (not os.path.lexists(p) or w.is_under(p, w.tmpdir)))
